@@ -370,7 +370,7 @@ def monitor_accepts_model(ctx, comps):
         mo, mc = vlib.run_stream([vlib.PMODEL] + list(comp.pmodel_args), cases, ctx.tmp, comp.name + "-mm")
         mcases = []
         for i, case in enumerate(cases):
-            outl = mo.get(i, [])
+            outl = mo.get(i, []) or []
             lines = []
             for j, op in enumerate(case):
                 if j < len(outl):
@@ -378,7 +378,7 @@ def monitor_accepts_model(ctx, comps):
             mcases.append(lines)
         vo, vc = vlib.run_stream([vlib.PMODEL] + list(comp.monitor_args), mcases, ctx.tmp, comp.name + "-mv")
         for i, case in enumerate(cases):
-            v = vo.get(i, [])
+            v = vo.get(i, []) or []
             badv = [(j, x) for j, x in enumerate(v) if x != "ok"]
             if i in mc or i in vc or badv or len(v) != len(case):
                 j, x = badv[0] if badv else (len(v), "no verdict / crash")
